@@ -250,6 +250,25 @@ func (c *Ctx) perFileCallbacks(cmd *Command) []*ssa.Function {
 	return out
 }
 
+// unwrapBound: the method behind a bound-method wrapper (walker.visit handed to WalkDir).
+func unwrapBound(fn *ssa.Function) *ssa.Function {
+	if fn == nil || !strings.Contains(fn.Synthetic, "bound method wrapper") {
+		return fn
+	}
+	var target *ssa.Function
+	allInstrs(fn, func(in ssa.Instruction) {
+		if cc := callCommon(in); cc != nil {
+			if sf := staticFn(cc); sf != nil {
+				target = sf
+			}
+		}
+	})
+	if target == nil {
+		return fn
+	}
+	return target
+}
+
 // RuleIsoGlobal: nothing else survives from file to file.
 func (c *Ctx) RuleIsoGlobal(commands ...string) *Result {
 	res := &Result{Rule: "ISO-GLOBAL", MinInst: len(commands)}
